@@ -133,7 +133,7 @@ class Engine(Conc, Executor, Calls):
                     self.type_invs[t] = d
                     locknames = [c.text.split()[0] for c in d.clauses if c.kind == "lock" and c.text.split()]
                     for cl in d.clauses:
-                        if cl.kind == "invariant":
+                        if cl.kind in ("invariant", "guarantee"):
                             import re as _re
                             m2 = _re.match(r"^(\w+)\s+(?:\[([^\]]+)\]\s*)?(.*)$", cl.text.strip(), _re.S)
                             if m2 and m2.group(1) in locknames:
@@ -141,7 +141,8 @@ class Engine(Conc, Executor, Calls):
                                 if m2.group(2):
                                     cl.label = m2.group(2)
                                 cl.text = m2.group(3)
-                            cl.ast = parse_expr(cl.text)
+                            if cl.kind == "invariant" or True:
+                                cl.ast = parse_expr(cl.text)
                         elif cl.kind == "nonnil":
                             cl.extra["fields"] = [x.strip() for x in cl.text.split(",") if x.strip()]
                 elif d.kind == "define":
@@ -358,7 +359,7 @@ class Engine(Conc, Executor, Calls):
         return v
 
     # ------------------------------------------------------------------ type invariants
-    def apply_type_invariant(self, st, t, v):
+    def apply_type_invariant(self, st, t, v, ptr=None):
         d = self.type_invs.get(t)
         if d is None or not isinstance(v, StructV):
             return
@@ -373,8 +374,11 @@ class Engine(Conc, Executor, Calls):
                     elif isinstance(x, FuncV) and x.ref is not None:
                         st.assume(x.ref != NIL)
         for cl in d.clauses:
-            if cl.kind == "invariant" and not cl.extra.get("lock"):
+            if cl.kind == "invariant":
                 ctx = SpecCtx(self, st, st, {"self": v}, fr_pkg=d.pkg)
+                ctx.pol = -1
+                if ptr is not None:
+                    ctx.token_obj = (ptr, t)
                 try:
                     st.assume(to_bool(ctx.eval(cl.ast)))
                 except SpecError as e:
@@ -748,6 +752,7 @@ class Engine(Conc, Executor, Calls):
                         oi = self.obl("inv", icl.label or ("line%d" % icl.line), icl.tags or None)
                         try:
                             ictx = SpecCtx(self, s2, s2, {"self": s2.load(args[0])}, fr_pkg=d_inv.pkg)
+                            ictx.token_obj = (args[0], rt)
                             goal = to_bool(ictx.eval(icl.ast))
                         except (SpecError, Unsupported) as e:
                             oi.instances += 1
